@@ -199,9 +199,6 @@ package regexp2
 //@   ensures[rtl] r.code.RightToLeft ==> 0 <= r.Runtextpos && r.Runtextpos <= old(r.Runtextpos) &&
 //@              forall p int :: p <= old(r.Runtextpos) && (p > r.Runtextpos || (!ok && p == r.Runtextpos)) ==> !Att(r.code, r.Runtext, r.Runtextstart, p)
 
-// C04 as used by scan: the published minimum length is a lower bound at every matching position.
-//@ spec func FactMinLen(code *syntax.Code, text []rune, origin int) bool = code.FindOptimizations != nil && code.FindOptimizations.MinRequiredLength > 0 ==>
-//@     forall p int :: Att(code, text, origin, p) ==> (code.RightToLeft ==> p >= code.FindOptimizations.MinRequiredLength) && (!code.RightToLeft ==> len(text) - p >= code.FindOptimizations.MinRequiredLength)
 
 // First attempt position of a scan: one past the origin after an empty previous match.
 //@ spec func ScanFrom(rtl bool, textstart int, prevLen int) int = ite(prevLen == 0, ite(rtl, textstart - 1, textstart + 1), textstart)
@@ -220,7 +217,7 @@ package regexp2
 //@   requires r.code.RightToLeft == ((r.re.options & RightToLeft) != 0)
 //@   requires RunnerAlloc(r) && (r.runmatch != nil ==> MatchWF(r.runmatch))
 //@   requires r.re.capsize >= 1 && 0 <= r.code.TrackCount
-//@   requires FactMinLen(r.code, rt, textstart) && FinderFacts(r.code, rt, textstart)
+//@   requires FinderFacts(r.code, rt, textstart)
 //@   modifies r.*, r.runmatch.*, elems(int), elems([]int)
 //@   ensures[state]   r.Runtext == rt && r.Runtextstart == textstart && r.Runtextend == len(rt) && r.code == old(r.code) && r.re == old(r.re)
 //@   ensures[alloc]   RunnerAlloc(r) && (r.runmatch != nil ==> MatchWF(r.runmatch))
@@ -314,7 +311,11 @@ package regexp2
 //@          re.quickCode.FindOptimizations == re.code.FindOptimizations &&
 //@          forall text []rune, origin int, p int :: Att(re.quickCode, text, origin, p) == Att(re.code, text, origin, p))
 // C04 (assumed here, decided under C04): published facts hold for every text.
-//@ spec func RegexpFacts(re *Regexp) bool = forall text []rune, origin int :: FactMinLen(re.code, text, origin) && FinderFacts(re.code, text, origin)
+// C04 (assumed at the entry points, decided under C04): FactsHold(re) stands for "every fact published for re's
+// programs holds at every matching position of every text". It is state independent; it is instantiated for the
+// concrete text at each call of scan (callassume clauses, listed in the evidence).
+//@ ghost func FactsHold(re *Regexp) bool
+//@ spec func RegexpFacts(re *Regexp) bool = FactsHold(re)
 
 // Invariant of runners stored in the pool.
 //@ spec func PooledRunner(re *Regexp, r *Runner) bool = r != nil && r.re == re && r.code == re.code && r.Runtext == nil && RunnerAlloc(r) &&
@@ -356,6 +357,7 @@ package regexp2
 //@   props C02 C07 C12
 //@   requires RegexpWF(re) && RegexpFacts(re) && re.runnerPool != nil
 //@   requires textInfo != nil ==> textInfo.runes == input
+//@   callassume scan: FactsHold(re) && (r.code == re.code || r.code == re.quickCode) ==> FinderFacts(r.code, rt, textstart)
 //@   modifies re.runnerPool, re.replaceCache, objs(Runner), objs(Match), elems(int), elems([]int)
 //@   ensures[errnil]  err != nil ==> m == nil
 //@   ensures[argerr]  (textstart > len(input)) ==> err != nil
@@ -410,20 +412,22 @@ package regexp2
 // C03 / C15 / C04: the default candidate finder and what it may assume (runner.go)
 // ---------------------------------------------------------------------------------------------
 
-// C04, as consumed by the default finder. Each conjunct gives one published fact its meaning.
-//@ spec func FactAnchors(code *syntax.Code, text []rune, origin int) bool = forall p int {Att(code, text, origin, p)} :: Att(code, text, origin, p) ==>
+// C04, as consumed by scan and the default finder. PosFacts gives each published fact its meaning at one matching
+// position p; CodeFacts are the text-independent well-formedness facts of the published data.
+//@ spec func PosFacts(code *syntax.Code, text []rune, origin int, p int) bool = Att(code, text, origin, p) ==>
 //@     ((code.Anchors & syntax.AnchorBeginning) != 0 ==> p == 0) &&
 //@     ((code.Anchors & syntax.AnchorStart) != 0 ==> p == origin) &&
 //@     ((code.Anchors & syntax.AnchorEnd) != 0 ==> p == len(text)) &&
-//@     ((code.Anchors & syntax.AnchorEndZ) != 0 ==> p == len(text) || (p == len(text) - 1 && text[p] == '\n'))
-//@ spec func FactBm(code *syntax.Code, text []rune, origin int) bool = code.BmPrefix != nil ==> len(code.BmPrefix.pattern) > 0 && code.BmPrefix.rightToLeft == code.RightToLeft &&
-//@     forall p int {Att(code, text, origin, p)} :: Att(code, text, origin, p) ==> syntax.BmAt(code.BmPrefix, text, p)
-//@ spec func FactFc(code *syntax.Code, text []rune, origin int) bool = code.FcPrefix != nil ==> syntax.SetOKv(code.FcPrefix.PrefixSet) &&
-//@     forall p int {Att(code, text, origin, p)} :: Att(code, text, origin, p) ==>
-//@         ite(code.RightToLeft, p > 0 && syntax.Member(code.FcPrefix.PrefixSet, text[p-1]), p < len(text) && syntax.Member(code.FcPrefix.PrefixSet, text[p]))
+//@     ((code.Anchors & syntax.AnchorEndZ) != 0 ==> p == len(text) || (p == len(text) - 1 && text[p] == '\n')) &&
+//@     (code.BmPrefix != nil ==> syntax.BmAt(code.BmPrefix, text, p)) &&
+//@     (code.FcPrefix != nil ==> ite(code.RightToLeft, p > 0 && syntax.Member(code.FcPrefix.PrefixSet, text[p-1]), p < len(text) && syntax.Member(code.FcPrefix.PrefixSet, text[p]))) &&
+//@     (code.FindOptimizations != nil && code.FindOptimizations.MinRequiredLength > 0 ==> ite(code.RightToLeft, p >= code.FindOptimizations.MinRequiredLength, len(text) - p >= code.FindOptimizations.MinRequiredLength))
+//@ spec func CodeFacts(code *syntax.Code) bool = (code.BmPrefix != nil ==> len(code.BmPrefix.pattern) > 0 && code.BmPrefix.rightToLeft == code.RightToLeft) &&
+//@     (code.FcPrefix != nil ==> syntax.SetOKv(code.FcPrefix.PrefixSet))
 // candidate finders selected by FindOptimizations.FindMode only skip positions without a match (decided per finder)
 //@ ghost func FactOptimized(code *syntax.Code, text []rune, origin int) bool
-//@ spec func FinderFacts(code *syntax.Code, text []rune, origin int) bool = FactAnchors(code, text, origin) && FactBm(code, text, origin) && FactFc(code, text, origin) && FactOptimized(code, text, origin) && FactMinLen(code, text, origin)
+//@ spec func FinderFacts(code *syntax.Code, text []rune, origin int) bool = CodeFacts(code) && FactOptimized(code, text, origin) &&
+//@     forall p int {Att(code, text, origin, p)} :: PosFacts(code, text, origin, p)
 
 //@ func findFirstCharDefault(r *Runner) (ok bool)
 //@   props C03 C15
